@@ -249,7 +249,7 @@ fn part_cancellation(ctx: &Ctx, info: &LangInfo, big: &[Vec<u8>], other_doc: &[u
         p0.set_language(&info.language).unwrap();
         let (_, k, _) = parse_cancelling(&mut p0, d, None, &[]);
         res.count("callbacks_in_reference_runs", k);
-        let pair_limit = if ctx.mini() { 6 } else if ctx.quick() { 40 } else { 150 };
+        let pair_limit = if ctx.mini() { 6 } else if ctx.quick() { 70 } else { 150 };
         let mut plans: Vec<Vec<u64>> = (1..=k).map(|i| vec![i]).collect();
         for i in 1..=k.min(pair_limit) { for j in i + 1..=k.min(pair_limit) { plans.push(vec![i, j]); } }
         for plan in plans {
@@ -438,6 +438,13 @@ pub fn replay(case: &Value) -> Vec<String> {
             let plan: Vec<u64> = x["cancel_at"].as_array().unwrap().iter().map(|v| v.as_u64().unwrap()).collect();
             let (t, calls, cancels) = parse_cancelling(&mut p, &d, None, &plan);
             println!("callbacks {} cancellations {}", calls, cancels);
+            if let (Ok(dir), Some(t)) = (std::env::var("VF_DUMP_DIR"), t.as_ref()) {
+                let mut p2 = Parser::new();
+                p2.set_language(&info.language).unwrap();
+                let whole = p2.parse(&d, None).unwrap();
+                let _ = std::fs::write(format!("{}/cancelled.dump", dir), crate::xtree::internal_dump(t));
+                let _ = std::fs::write(format!("{}/whole.dump", dir), crate::xtree::internal_dump(&whole));
+            }
             match t { None => vec!["resume never finishes".into()], Some(t) => same(&XTree::build(&t), &refx).into_iter().collect() }
         }
         "encoding" => {
